@@ -550,8 +550,11 @@ Proof.
   destruct (is_kind st KSpace s && forallb (is_kind st KSpace) bs) eqn:Ek; cbn [negb]; [|intros E; inversion E; subst; exact H].
   destruct (existsb (fun b => N.eqb b s || memN s (ancs_of st b)) bs); intros E; inversion E; subst; [exact H|].
   apply andb_true_iff in Ek as [Ek _].
-  apply str_create_derived; [exact H|].
-  intros T [HT|HT]; [subst T; split; assumption|]. exact (subs_of_live _ _ _ HT).
+  apply str_create_derived; [apply str_discard_items; exact H|].
+  intros T HT.
+  assert (live_space st T) as [Ha Hk].
+  { destruct HT as [HT|HT]; [subst T; split; assumption|]. exact (subs_of_live _ _ _ HT). }
+  split; [|exact Hk]. rewrite alive_discard_items; [exact Ha|exact H|exact (live_space_contk _ _ Hk)].
 Qed.
 
 Lemma str_step_remove_bases : forall st s bs st' o, Str st -> step_remove_bases st s bs = (st', o) -> Str st'.
